@@ -27,6 +27,7 @@ CONSTANTS Species,    \* lower-cased symbols of plasma species (an element, one 
           SameFamily, \* TRUE: all steps of one behaviour address the same family (cross-family runs use FALSE)
           MaxMulti,   \* max number of keys in one multi-key update (0 = none)
           InstFronts, \* install_* front-ends explored (subset of Fronts; {} = none)
+          SharedInputs, \* BOOLEAN: explore writes that reuse the data object of the preceding write (WriteSame)
           FieldRejects, \* BOOLEAN: explore writes with one unusable field (RejectField)
           Probes      \* subset of BOOLEAN: does the caller read every key back after every call (TRUE) or only at the end
 
@@ -87,6 +88,17 @@ Log(e) == hist' = Append(hist, e @@ [post |-> Abs(store'), files |-> Files(store
 Write(k, v, api, spelling) ==
   /\ store' = [store EXCEPT ![k] = v]
   /\ Log([op |-> "write", api |-> api, k |-> k, v |-> v, sp |-> spelling])
+
+\* The caller hands the very data object of the preceding write (of key k0, value id v0) to a write of another key of
+\* the family: k then holds a copy of that content - the library may not have consumed or altered the caller's object.
+\* The stored id is CopyOf(v0); the history entry names the source key.
+CopyOf(v) == 10 + v
+WriteSame(k, api) ==
+  /\ Len(hist) > 0
+  /\ LET e == hist[Len(hist)] IN
+       /\ e.op = "write" /\ e.v \in Vals /\ e.k[1] = k[1] /\ e.k # k /\ k[1] # "wavelength"
+       /\ store' = [store EXCEPT ![k] = CopyOf(e.v)]
+       /\ Log([op |-> "write", api |-> api, k |-> k, v |-> CopyOf(e.v), sp |-> 1, shared |-> TRUE, from |-> e.k])
 
 \* update_<family>({k1: v1, k2: v2, ...}) with all entries valid
 MultiUpdate(f, W, w) ==
@@ -169,6 +181,7 @@ NextStep ==
                 \/ \E S \in SUBSET {k1, k2} : RejectedMulti(f, {k1, k2}, w, S)
   \/ \E k \in AllKeys, kind \in {"charge", "shape", "type"}, api \in Apis :
         /\ FamOK(k[1]) /\ Reject(k, kind, api)
+  \/ \E k \in AllKeys, api \in Apis : SharedInputs /\ WriteSame(k, api)
   \/ \E k \in AllKeys, how \in Hows, api \in Apis : \E fld \in Fields(k[1]) :
         /\ FieldRejects /\ FamOK(k[1]) /\ RejectField(k, fld, how, api)
   \/ \E fr \in InstFronts, s \in Species, d \in Donors :
@@ -185,7 +198,7 @@ Spec == Init /\ [][Next]_vars
 -----------------------------------------------------------------------------
 \* Properties of the model
 
-TypeOK == store \in [AllKeys -> {0, InstVal} \cup Vals] /\ InstFronts \subseteq Fronts /\ InstVal \notin Vals
+TypeOK == store \in [AllKeys -> {0, InstVal} \cup Vals \cup {CopyOf(v) : v \in Vals}] /\ InstFronts \subseteq Fronts /\ InstVal \notin Vals
 
 \* keys a history entry may touch
 Touched(e) == CASE e.op = "write"  -> {e.k}
